@@ -128,6 +128,7 @@ RunLoop:
 			}
 		}
 		opcode := opcodes[pc]
+		c.pc = pc // keep DebugInfo accurate while metamethods run synchronously
 		if opcode.HasType1() {
 			dst := opcode.GetA()
 			x := getReg(regs, cells, opcode.GetB())
